@@ -1139,6 +1139,10 @@ type wsStallSpec struct {
 	// Idle: the handler emits nothing; the only relay writes are pings (the write
 	// that blocks is then a ping frame)
 	Idle bool `json:"idle,omitempty"`
+	// BadInput (with Idle): the handler emits nothing, but the peer that stopped
+	// reading keeps sending frames the relay rejects, so the writes that block
+	// are the relay's own rejection notices
+	BadInput bool `json:"bad_input,omitempty"`
 }
 
 func wsStallRun(t *testing.T, sp *wsStallSpec, sched simrt.Schedule) *simrt.Result {
@@ -1154,8 +1158,13 @@ func wsStallRun(t *testing.T, sp *wsStallSpec, sched simrt.Schedule) *simrt.Resu
 		var link *simrt.WSLink
 		var dialErr error
 		dialed := false
+		var conn *websocket.Conn
+		sim.Cleanup(func() {
+			if conn != nil {
+				conn.CloseNow() // the client library's own goroutines
+			}
+		})
 		sim.Go("wsc", func() {
-			var conn *websocket.Conn
 			conn, link, dialErr = sim.DialWS(ctx, srvCtx, "ws0", mux, sp.Conn)
 			dialed = true
 			if dialErr != nil {
@@ -1178,8 +1187,24 @@ func wsStallRun(t *testing.T, sp *wsStallSpec, sched simrt.Schedule) *simrt.Resu
 		link.StallS2C()
 		st.Fault("conn-stall")
 		sendTimeout := time.Duration(sp.Opt.SendTimeoutMs) * time.Millisecond
+		if sp.Idle && sp.BadInput {
+			st.Fault("rejected-input-from-stalled-peer")
+			sim.Go("wsc.bad", func() {
+				for i := 0; i < 200; i++ {
+					verifsim.Yield("wsc.bad")
+					if err := conn.Write(ctx, websocket.MessageText, []byte(fmt.Sprintf(`["EVENT", {oops %d`, i))); err != nil {
+						return
+					}
+					select {
+					case <-time.After(150 * time.Millisecond):
+					case <-ctx.Done():
+						return
+					}
+				}
+			})
+		}
 		// find the moment a server write starts to block
-		if sp.Idle {
+		if sp.Idle && !sp.BadInput {
 			// nothing but pings is written. The connection buffers a ping frame, so
 			// no write blocks; the ping that gets no pong must end the session one
 			// send timeout after it was sent (first tick after the stall at the latest)
@@ -1240,7 +1265,7 @@ func wsStallRun(t *testing.T, sp *wsStallSpec, sched simrt.Schedule) *simrt.Resu
 			return
 		}
 		if blockedAt.IsZero() {
-			if sp.Idle && sp.Opt.PingMs == 0 {
+			if sp.Idle && !sp.BadInput && sp.Opt.PingMs == 0 {
 				// no handler output and no pings: the relay writes nothing, so there
 				// is no blocked write the property speaks about
 				st.Probe("idle_without_ping_nothing_to_block")
